@@ -61,6 +61,7 @@ func GenNode(r *rand.Rand, o GenOpts, nActions int) NodeSpec {
 			eff := EffBudget(&ns)
 			if effFB(&ns) && r.IntN(3) == 0 {
 				vs.FirstOK = eff + 1 // all fail, fallback rescues
+				vs.FBNil = r.IntN(3) == 0
 			} else {
 				vs.FirstOK = 1 + r.IntN(eff)
 			}
@@ -166,6 +167,10 @@ func GenFlowScenario(r *rand.Rand, o GenOpts) *Scenario {
 		sc.FreshStore = r.IntN(2) == 0
 	}
 	sc.UseFlowRun = r.IntN(3) == 0
+	sc.ShareBase = r.IntN(5) == 0
+	if r.IntN(8) == 0 {
+		sc.StrayFlowRetries = 2 + r.IntN(2)
+	}
 	if sc.Runs > 1 && r.IntN(2) == 0 {
 		// Connect calls between runs: overwrite an existing pair, add a new action to a node that already
 		// has connections, re-connect to nil
